@@ -34,6 +34,9 @@ def _state():
         return State(default=D, history=[("touch", "Given x"), ("lang", OTHER), ("touch", "zzz"), ("touch", "@t"), ("reset",)])
     if MODE == "history2":
         return State(default=OTHER, history=[("touch", "x"), ("lang", D), ("touch", "y"), ("reset",), ("touch", "| a |"), ("lang", D)])
+    if MODE == "dirty":
+        # the previous document switched dialect AND ended inside an indented doc string; a new parse starts
+        return State(default=D, history=[("lang", OTHER), ("touch", "x"), ("open", '      """'), ("touch", "y"), ("reset",)])
     if MODE == "same":
         # a header naming the dialect that is already in force
         return State(default=D, history=[("touch", "x"), ("lang", D)])
